@@ -4,7 +4,7 @@ Closed model Weights.tla: three NodePools with weights from {unset, 1, 10, 10} (
 (taints, limits, requirements, minValues, not Ready, ...), a catalog whose price order depends on zone / capacity type /
 availability, 2-3 pods; the MECHANISM (weight order, relaxation ladder, per-template filter, lowest admissible index, limits
 charged with the largest capacity, OrderByPrice + Truncate + minValues, FinalizeScheduling, ToNodeClaim) must imply the ORACLE
-of WeightsGuards.tla at every commitment; 15 spec mutations must be rejected; ParallelMin.tla covers the parallel selection.
+of WeightsGuards.tla at every commitment; 18 spec mutations must be rejected; ParallelMin.tla covers the parallel selection.
 TLC then ENUMERATES scenarios (Weights_Gen.cfg); they - plus hand-made cells and seeded explorer scenarios of the `weights`
 alphabet (checks/weights_common.py: the sub-alphabet for which FeasibleFresh is exact) - run through the real
 Provisioner.Schedule + CreateNodeClaims with 1 / 2 / 8 evaluation workers, both minValues policies and a reduced
